@@ -157,6 +157,11 @@ func (m *model) step(op opSpec, r opResult) (bool, string) {
 	case "next":
 		// positions and active flags are not modelled; C08/C17 judge them
 		return true, ""
+	case "restart":
+		if r.Err != "" {
+			return false, "restoring the seat map failed (" + r.Err + ")"
+		}
+		return true, ""
 	}
 	return false, "unknown op"
 }
